@@ -114,19 +114,20 @@ def check_typing_table(model: Model, report: Report, rule: str, rule_arity: str)
     fn = eci.find_method("check_well_typedness")
     if fn is None:
         raise AnalysisError("anchor vanished: JSONPathEnvironment.check_well_typedness")
-    for param, arg, pos in [(p, a, q) for p in TYPES for a in ARG_CLASSES for q in ("only", "second")]:
+    FIRST = {"after-VALUE": ("VALUE", "literal:int"), "after-LOGICAL": ("LOGICAL", "comparison"), "after-NODES": ("NODES", "query:relative:non-singular")}
+    for param, arg, pos in [(p, a, q) for p in TYPES for a in ARG_CLASSES for q in ("only", "after-VALUE", "after-LOGICAL", "after-NODES")]:
         if True:
 
             def body(it: Interp, param=param, arg=arg, pos=pos) -> Any:
                 env = real_env(it, model)
-                f = probe_function(it, model, [param] if pos == "only" else ["VALUE", param], "LOGICAL", [])
+                f = probe_function(it, model, [param] if pos == "only" else [FIRST[pos][0], param], "LOGICAL", [])
                 register(it, env, "f", f)
                 tok = make_token(it, model, "FUNCTION", Const("f"), "ftok")
                 a = make_arg(it, model, env, arg)
-                args = [a] if pos == "only" else [make_arg(it, model, env, "literal:int"), a]
+                args = [a] if pos == "only" else [make_arg(it, model, env, FIRST[pos][1]), a]
                 return it.call_function(fn, [env, tok, f, it.new_list(args)], {}, None, self_av=env)
 
-            key = f"typing:{param}Type<-{arg}" + ("" if pos == "only" else ":second-parameter")
+            key = f"typing:{param}Type<-{arg}" + ("" if pos == "only" else f":second-parameter-{pos}")
             try:
                 runs = paths(model, body)
             except Unsupported as err:
